@@ -142,8 +142,8 @@ theorem WInvX.sameCore {x : Option Nat} {w w' : World} (h : WInvX x w) (s : Same
   case connecting =>
     intro p pr' hp' hs
     obtain ⟨pr, a, _, c, _, _, _, _, g, _⟩ := hpr p pr' hp'
-    obtain ⟨cr, cc, i1, i2, i3⟩ := h.connecting p pr a (by rw [← c]; exact hs)
-    exact ⟨cr, cc, by rw [g]; exact i1, by rw [s.connReqs]; exact i2, fun d hd => by rw [s.fired]; exact ⟨(i3 d hd).1, (hp _ _).mpr (i3 d hd).2⟩⟩
+    obtain ⟨cr, cc, i1, i2, ip, i3⟩ := h.connecting p pr a (by rw [← c]; exact hs)
+    exact ⟨cr, cc, by rw [g]; exact i1, by rw [s.connReqs]; exact i2, ip, fun d hd => by rw [s.fired]; exact ⟨(i3 d hd).1, (hp _ _).mpr (i3 d hd).2⟩⟩
   case connReq =>
     rw [s.connReqs, s.fired, s.ents]
     intro cr c d hc hd hnf
@@ -153,7 +153,12 @@ theorem WInvX.sameCore {x : Option Nat} {w w' : World} (h : WInvX x w) (s : Same
   case connReqFresh => rw [s.connReqs]; intro cr c d hc hd; exact Nat.lt_of_lt_of_le (h.connReqFresh cr c d hc hd) s.nextDfd
   case connackOwned =>
     rw [s.connReqs, s.fired]
-    intro t cr hpd; exact h.connackOwned t cr ((hp _ _).mp hpd)
+    intro t cr hpd
+    obtain ⟨c, d, a1, a2, a3, a4, pr, a5, a6⟩ := h.connackOwned t cr ((hp _ _).mp hpd)
+    obtain ⟨pr', b'⟩ := (s.protos c.proto).2 pr a5
+    obtain ⟨pr2, b2, _, c2, d2, _, _, _, g2, _⟩ := hpr c.proto pr' b'
+    rw [a5] at b2; injection b2 with b2; subst b2
+    exact ⟨c, d, a1, a2, a3, a4, pr', b', by rw [d2, c2, g2]; exact a6⟩
   case retryLive =>
     intro t p rid hpd
     obtain ⟨pr, a, b⟩ := h.retryLive t p rid ((hp _ _).mp hpd)
@@ -163,9 +168,9 @@ theorem WInvX.sameCore {x : Option Nat} {w w' : World} (h : WInvX x w) (s : Same
     exact ⟨pr', a', by rw [d2]; exact b⟩
   case connReqLive =>
     rw [s.connReqs, s.fired]
-    intro p pr' cr c d hp' hcq
+    intro p pr' cr c hp' hcq
     obtain ⟨pr, a, _, _, _, _, _, _, g, _⟩ := hpr p pr' hp'
-    exact h.connReqLive p pr cr c d a (by rw [← g]; exact hcq)
+    exact h.connReqLive p pr cr c a (by rw [← g]; exact hcq)
   case subArmed =>
     rw [s.ents]; intro e he hb ha; rw [(s.reqs e.rid).2.2] at ha
     obtain ⟨p, pr, a, b, c⟩ := h.subArmed e he hb ha
@@ -251,8 +256,8 @@ theorem dropArmed_inv {x : Option Nat} {w : World} (h : WInvX x w) {e : Ent} (he
   case pingLoopOwned => intro t' p hp; exact h.pingLoopOwned t' p ((hpending _ _).mp hp).1
   case connecting =>
     intro p pr hp hs
-    obtain ⟨cr, c, i1, i2, i3⟩ := h.connecting p pr hp hs
-    exact ⟨cr, c, i1, i2, fun d hd => ⟨(i3 d hd).1, (hpending _ _).mpr ⟨(i3 d hd).2, hne (i3 d hd).2 (by simp)⟩⟩⟩
+    obtain ⟨cr, c, i1, i2, ip, i3⟩ := h.connecting p pr hp hs
+    exact ⟨cr, c, i1, i2, ip, fun d hd => ⟨(i3 d hd).1, (hpending _ _).mpr ⟨(i3 d hd).2, hne (i3 d hd).2 (by simp)⟩⟩⟩
   case connReq =>
     intro cr c d hc hd hnf
     obtain ⟨a1, a3⟩ := h.connReq cr c d hc hd hnf
@@ -315,8 +320,8 @@ theorem fireD_inv {x : Option Nat} {w : World} (h : WInvX x w) {d : Nat} (hd : d
   case pingLoopOwned => exact h.pingLoopOwned
   case connecting =>
     intro p pr hp' hs
-    obtain ⟨cr, c, i1, i2, i3⟩ := h.connecting p pr hp' hs
-    refine ⟨cr, c, i1, i2, fun d' hd' => ⟨fun hmem => ?_, (i3 d' hd').2⟩⟩
+    obtain ⟨cr, c, i1, i2, ip, i3⟩ := h.connecting p pr hp' hs
+    refine ⟨cr, c, i1, i2, ip, fun d' hd' => ⟨fun hmem => ?_, (i3 d' hd').2⟩⟩
     simp only [fireD, List.mem_cons] at hmem
     rcases hmem with rfl | hmem
     · exact hcr _ cr c (i3 d' hd').2 i2 hd'
@@ -336,11 +341,12 @@ theorem fireD_inv {x : Option Nat} {w : World} (h : WInvX x w) {d : Nat} (hd : d
     · exact a3 hc
   case retryLive => exact h.retryLive
   case connReqLive =>
-    intro p pr cr c d' hp' hcq hc hd' hmem
+    intro p pr cr c hp' hcq hc
+    refine ⟨(h.connReqLive p pr cr c hp' hcq hc).1, fun d' hd' hmem => ?_⟩
     simp only [fireD, List.mem_cons] at hmem
     rcases hmem with rfl | hmem
     · exact hcl p pr cr c hp' hcq hc hd'
-    · exact h.connReqLive p pr cr c d' hp' hcq hc hd' hmem
+    · exact (h.connReqLive p pr cr c hp' hcq hc).2 d' hd' hmem
   case subArmed => exact h.subArmed
   case bufOk => exact h.bufOk
 
@@ -488,8 +494,8 @@ theorem disarm_inv {x : Option Nat} {w : World} (h : WInvX x w) {e : Ent} (he : 
   case pingLoopOwned => intro t' p hp; exact h.pingLoopOwned t' p ((hpending _ _).mp hp).1
   case connecting =>
     intro p pr hp hs
-    obtain ⟨cr, c, i1, i2, i3⟩ := h.connecting p pr hp hs
-    exact ⟨cr, c, i1, i2, fun d hd => ⟨(i3 d hd).1, (hpending _ _).mpr ⟨(i3 d hd).2, hne (i3 d hd).2 (by simp)⟩⟩⟩
+    obtain ⟨cr, c, i1, i2, ip, i3⟩ := h.connecting p pr hp hs
+    exact ⟨cr, c, i1, i2, ip, fun d hd => ⟨(i3 d hd).1, (hpending _ _).mpr ⟨(i3 d hd).2, hne (i3 d hd).2 (by simp)⟩⟩⟩
   case connReq =>
     intro cr c d hc hd hnf
     obtain ⟨a1, a3⟩ := h.connReq cr c d hc hd hnf
@@ -668,8 +674,8 @@ theorem armed_inv {x : Option Nat} {w : World} (h : WInvX x w) {e : Ent} (he : e
     · cases hp2
   case connecting =>
     intro q pr hp hs
-    obtain ⟨cr, c, i1, i2, i3⟩ := h.connecting q pr hp hs
-    exact ⟨cr, c, i1, i2, fun d hd => ⟨(i3 d hd).1, hpold (i3 d hd).2 (by simp)⟩⟩
+    obtain ⟨cr, c, i1, i2, ip, i3⟩ := h.connecting q pr hp hs
+    exact ⟨cr, c, i1, i2, ip, fun d hd => ⟨(i3 d hd).1, hpold (i3 d hd).2 (by simp)⟩⟩
   case connReq =>
     intro cr c d hc hd hnf
     obtain ⟨a1, a3⟩ := h.connReq cr c d hc hd hnf
@@ -863,8 +869,8 @@ theorem addWindow_inv {x : Option Nat} {w : World} (h : WInvX x w) (a : Nat) (bo
     · cases hp2
   case connecting =>
     intro q pr hp hs
-    obtain ⟨cr, c, i1, i2, i3⟩ := h.connecting q pr hp hs
-    exact ⟨cr, c, i1, i2, fun d hd => ⟨(i3 d hd).1, (hpending _ _).mpr (Or.inl (i3 d hd).2)⟩⟩
+    obtain ⟨cr, c, i1, i2, ip, i3⟩ := h.connecting q pr hp hs
+    exact ⟨cr, c, i1, i2, ip, fun d hd => ⟨(i3 d hd).1, (hpending _ _).mpr (Or.inl (i3 d hd).2)⟩⟩
   case connReq =>
     intro cr c d' hc hd' hnf
     obtain ⟨a1, a3⟩ := h.connReq cr c d' hc hd' hnf
